@@ -291,7 +291,7 @@ RECURSIVE WrapAll(_, _)
 WrapAll(cs, e) == IF cs = <<>> THEN e ELSE Wrap(cs[1], WrapAll(Tail(cs), e))   \* cs[1] outermost
 
 CtxSeqs(maxdepth) == UNION {[1..d -> TailCtxSet] : d \in 0..maxdepth}
-TailShapes == {"self", "mutual2", "mutual3", "param", "variadic", "closure"}
+TailShapes == {"self", "mutual2", "mutual3", "param", "variadic", "closure", "closurestate"}
 
 \* the call: direct or through apply
 \* viaApply: 0 direct call, 1 (apply f (list a ...)), 2 (apply f a1 (list a2 ...)) - leading arguments before the list
@@ -344,6 +344,13 @@ TailProgram(abs, shape, viaApply, cs, n) ==
                               W(MkCall(viaApply, Var("self"), <<Var("self"), Dec("i"), (IF abs THEN Var("acc") ELSE Call("+", <<Var("acc"), Var("step")>>))>>)))>>)),
            Define("lp", Call("make", <<Num(1)>>)),
            Call("lp", <<Var("lp"), n, Num(0)>>)>>
+    \* every turn builds the closure that runs the next turn; the accumulator lives in the closure, so a turn that went on
+    \* running the closure of an earlier turn would compute with a stale accumulator
+    [] shape = "closurestate" ->
+         <<Define("step", Lam(<<"acc">>, "", <<>>,
+                    <<LoopLam(abs, <<"i">>, "", 1, IsZero, Var("acc"),
+                              W(MkCall(viaApply, Call("step", <<Inc("acc")>>), <<Dec("i")>>)))>>)),
+           App(Call("step", <<Num(0)>>), <<n>>)>>
 
 \* terminating members (small N): the loop must return N
 TailFinFamily(maxdepth, counts) ==
